@@ -556,8 +556,17 @@ impl CommandAnalyzer {
     ) -> Option<&'a syn::ItemFn> {
         for item in items {
             match item {
-                // Command names are kept without the r# prefix of a raw identifier
-                syn::Item::Fn(func) if func.sig.ident.unraw() == function_name => {
+                // Command names are kept without the r# prefix of a raw identifier; a helper of
+                // the same name in another module of the file is not the command
+                syn::Item::Fn(func)
+                    if func.sig.ident.unraw() == function_name
+                        && func.attrs.iter().any(|attr| {
+                            attr.path()
+                                .segments
+                                .last()
+                                .is_some_and(|segment| segment.ident == "command")
+                        }) =>
+                {
                     return Some(func);
                 }
                 syn::Item::Mod(item_mod) => {
